@@ -198,7 +198,7 @@ struct ExprGen {
         if (k == 4) return "count(" + nset(d - 1) + ")"; if (k == 5) return "sum(" + nset(d - 1) + "/@v)";
         if (k == 6) return "string-length(" + str(d - 1) + ")";
         if (k == 7) { static const std::vector<std::string> ops = { " + ", " - ", " * ", " div ", " mod " }; return "(" + num(d - 1) + g.pick(ops) + num(d - 1) + ")"; }
-        if (k == 8) return "-" + num(d - 1);
+        if (k == 8) return "-(" + num(d - 1) + ")";      // "--7" is XPath, but the library's parser takes one unary minus only
         if (k == 9) { static const std::vector<std::string> fs = { "floor", "ceiling", "round" }; return g.pick(fs) + "(" + num(d - 1) + ")"; }
         if (k == 10) return "number(" + any(d - 1) + ")";
         return "last()";
@@ -298,7 +298,7 @@ inline const std::vector<std::string>& allFeatures() {
         "lre", "message", "modes", "sort2", "comment-pi", "exslt-set", "exslt-math", "exslt-str", "genid", "lang", "sysprop", "param", "ifbool",
         "union", "preds", "valnum", "apply-imports", "text-nodes", "ns-axis", "doctype-node", "attr-nodes", "number-value", "bigfmt", "xalan-ext", "docfn", "avt-ns", "extfn", "paramuse", "gate", "num-gate", "sortlang", "num-value", "lazyvar", "manyrtf", "deeprec", "padsupp", "top-nodes", "doe", "sort-gate", "bignum-alpha",
         "num-punct", "num-exotic", "ext-evaluate", "rtf-key", "key-prefixed", "key-variant",
-        "nsalias", "withparam", "fmtnum-pat", "doc2", "unparsed-entity", "nsfix", "numconv", "keynodeset", "randexpr", "manydf", "axes-matrix", "num-groupsep", "sort-manylang", "attr-replace"
+        "nsalias", "withparam", "fmtnum-pat", "doc2", "unparsed-entity", "nsfix", "numconv", "keynodeset", "randexpr", "manydf", "axes-matrix", "num-groupsep", "sort-manylang", "attr-replace", "deep-rtf", "many-nodesets"
     };
     return f;
 }
@@ -429,6 +429,12 @@ struct SSGen {
         if (on("attr-replace")) { extraTop2 += "<xsl:attribute-set name=\"arl\"><xsl:attribute name=\"d\">a-rather-long-value-from-the-set</xsl:attribute></xsl:attribute-set>";
             perNode += "<xsl:if test=\"not(ancestor::*)\"><o f=\"attr-replace\" n=\"{@id}\"><e a=\"placeholder-identifier\" b=\"some value\" c=\"x\"><xsl:attribute name=\"a\">K</xsl:attribute><xsl:attribute name=\"b\"/><xsl:attribute name=\"c\">xy</xsl:attribute></e><f xsl:use-attribute-sets=\"arl\" d=\"s\"/><xsl:element name=\"g\" use-attribute-sets=\"arl\"><xsl:attribute name=\"d\">t</xsl:attribute></xsl:element></o></xsl:if>";
             out.expect.emplace_back("attr-replace", "E{|e|^a=K;^b=;^c=xy;|}E{|f|^d=s;|}E{|g|^d=t;|}"); }
+        // result tree fragments nested eleven deep (the output context stack grows by one block every few levels)
+        if (on("deep-rtf")) { std::string open, close; for (int i = 0; i < 11; ++i) { open += "<xsl:variable name=\"dr" + std::to_string(i) + "\"><l" + std::to_string(i) + ">"; close = "</l" + std::to_string(i) + "></xsl:variable><xsl:copy-of select=\"$dr" + std::to_string(i) + "\"/>" + close; }
+            perNode += "<xsl:if test=\"count(preceding::*) mod 5 = 0\"><o f=\"deep-rtf\" n=\"{@id}\">" + open + "<xsl:value-of select=\"@id\"/>" + close + "</o></xsl:if>"; }
+        // sixty node-set variables in one template: more borrowed node lists given back at once than the cache has room reserved for (50)
+        if (on("many-nodesets")) { std::string vars, uses; for (int i = 0; i < 60; ++i) { vars += "<xsl:variable name=\"mn" + std::to_string(i) + "\" select=\"*[position() &gt; " + std::to_string(i % 4) + "]\"/>"; if (i % 10 == 0) uses += vo("count($mn" + std::to_string(i) + ")") + ","; }
+            perNode += "<xsl:if test=\"count(preceding::*) mod 6 = 0\">" + vars + o("many-nodesets", uses) + "</xsl:if>"; }
         // many result tree fragments alive at the same time (arena blocks of the fragment allocators hold 10)
         if (on("manyrtf")) { std::string vars, uses; for (int i = 0; i < 13; ++i) { std::string n = "mr" + std::to_string(i); vars += "<xsl:variable name=\"" + n + "\"><r" + std::to_string(i) + "><xsl:value-of select=\"@id\"/></r" + std::to_string(i) + ">t" + std::to_string(i) + "</xsl:variable>"; uses += "<xsl:value-of select=\"string-length($" + n + ")\"/>,"; }
             perNode += "<xsl:if test=\"count(preceding::*) mod 4 = 0\">" + vars + "<o f=\"manyrtf\" n=\"{@id}\">" + uses + "<xsl:copy-of select=\"$mr12\"/></o></xsl:if>"; }
